@@ -2,8 +2,10 @@ package vh
 
 import (
 	"errors"
+	"fmt"
 	"io"
 	"net"
+	"os"
 	"sync"
 	"time"
 )
@@ -318,4 +320,17 @@ func (l *MemListener) Inject(c net.Conn) {
 	case l.ch <- c:
 	case <-l.done:
 	}
+}
+
+// LoopListen listens on a loopback address that belongs to this process alone: 127.x.y.z derived from the
+// process id (the whole 127/8 block is loopback).  Several checks may run on one machine at the same time; a
+// redialing client of one of them must never reach a listener of another that happened to get its old port.
+func LoopListen() (net.Listener, error) {
+	pid := os.Getpid()
+	ip := fmt.Sprintf("127.%d.%d.%d", 1+(pid>>16)%250, (pid>>8)&255, 1+pid&127)
+	l, err := net.Listen("tcp", ip+":0")
+	if err != nil {
+		return net.Listen("tcp", "127.0.0.1:0")
+	}
+	return l, nil
 }
